@@ -1060,7 +1060,7 @@ class PX:
             kk = _hashable(k)
             if kk in b:
                 return b[kk]
-            if isinstance(k, Sym) or _has_sym(k) or any(isinstance(x, Sym) or _has_sym(x) for x in b):
+            if b and (isinstance(k, Sym) or _has_sym(k) or any(isinstance(x, Sym) or _has_sym(x) for x in b)):
                 c = Sym(f"({_short(k)} in keys({_dict_tag(b)}))")
                 if self.truth(c, fr, e):
                     return Sym(f"{_dict_tag(b)}[{_short(k)}]")
@@ -1289,6 +1289,8 @@ class PX:
         it = int_type_of(cls)
         if it and len(args) == 1 and isinstance(args[0], (int, Member)) and not kw:
             return ZInt(int(args[0]), *it)
+        if it and len(args) == 1 and isinstance(args[0], Sym) and not kw:
+            return Sym(f"{cls.name}({args[0].tag})")
         if cls.is_enum:
             if len(args) == 1 and not kw:
                 a = args[0]
@@ -1376,6 +1378,13 @@ class PX:
             self.emit("write", text, args, kw, node=node, frame=fr)
         if isinstance(obj, dict) and name in ("items", "keys", "values"):
             return _DictItems(obj, name)
+        if isinstance(obj, set) and name == "pop" and not args:
+            if not obj:
+                raise Exc("KeyError", ("pop from an empty set",), origin=text)
+            items = sorted(obj, key=repr)
+            x = items[self.choose(len(items), f"set.pop {text}")]  # set.pop() removes an arbitrary element
+            obj.discard(x)
+            return x
         if isinstance(obj, dict) and name in ("get", "pop", "setdefault") and args:
             args = [_hashable(args[0])] + list(args[1:])
         try:
